@@ -7,6 +7,10 @@ Tr == ndJsonDeserialize("trace.ndjson")
 VARIABLES l, g, bad, cnt
 vars == <<l, g, bad, cnt>>
 
+\* violations are collected up to a cap, but the first violation of every clause is always kept: a flood of violations of one
+\* clause (another property's) must not hide the only violation of another
+KeepBad(b, v) == Len(b) < 300 \/ \E c \in v : \A i \in DOMAIN b : c \notin b[i].ids
+
 TInit == l = 1 /\ g = MEGhostInit /\ bad = <<>> /\ cnt = [c \in MEClauseIds |-> 0]
 
 Step ==
@@ -18,7 +22,7 @@ Step ==
           LET v == {c.id : c \in {y \in x : ~y.ok}}
               xi == {c.id : c \in x}
           IN /\ g' = g2
-             /\ bad' = IF v # {} /\ Len(bad) < 300 THEN Append(bad, [l |-> l, sid |-> ev.sid, i |-> ev.i, ids |-> v, tags |-> {}]) ELSE bad
+             /\ bad' = IF v # {} /\ KeepBad(bad, v) THEN Append(bad, [l |-> l, sid |-> ev.sid, i |-> ev.i, ids |-> v, tags |-> {}]) ELSE bad
              /\ cnt' = [c \in MEClauseIds |-> IF c \in xi THEN cnt[c] + 1 ELSE cnt[c]]
   /\ l' = l + 1
 
